@@ -25,6 +25,14 @@ type c05Target struct {
 	otherR  [][]string
 	names   []string
 	domains []string
+	onames  []string // names over which the links of the OTHER role definition are observed
+}
+
+func (t c05Target) namesFor(pt string) []string {
+	if pt != t.pt && len(t.onames) > 0 {
+		return t.onames
+	}
+	return t.names
 }
 
 func c05Observe(c *Ctx, id string, k int, m *mach, t c05Target, res string, nores bool) {
@@ -34,7 +42,7 @@ func c05Observe(c *Ctx, id string, k int, m *mach, t c05Target, res string, nore
 	c.Obs(id, fmt.Sprintf("%d.listed", k), m.listedKey())
 	for _, d := range m.Conf.Defs {
 		if d.IsG {
-			c.Obs(id, fmt.Sprintf("%d.links.%s", k, d.Pt), m.linksKey(d.Pt, t.names, t.domains))
+			c.Obs(id, fmt.Sprintf("%d.links.%s", k, d.Pt), m.linksKey(d.Pt, t.namesFor(d.Pt), t.domains))
 		}
 	}
 }
@@ -43,7 +51,7 @@ func c05ObsSpec(t c05Target) string {
 	items := []string{"res", "listed"}
 	for _, d := range t.conf.Defs {
 		if d.IsG {
-			items = append(items, L("links", Q(d.Pt), QL(t.names), QL(t.domains)))
+			items = append(items, L("links", Q(d.Pt), QL(t.namesFor(d.Pt)), QL(t.domains)))
 		}
 	}
 	return strings.Join(items, " ")
@@ -66,7 +74,7 @@ func c05FreshLinks(m *mach, t c05Target) map[string]string {
 	f := &mach{Conf: m.Conf, E: e}
 	for _, d := range m.Conf.Defs {
 		if d.IsG {
-			out[d.Pt] = f.linksKey(d.Pt, t.names, t.domains)
+			out[d.Pt] = f.linksKey(d.Pt, t.namesFor(d.Pt), t.domains)
 		}
 	}
 	return out
@@ -111,7 +119,7 @@ func c05Run(c *Ctx, id string, t c05Target, content []prule, autosave bool, ops 
 		fresh := c05FreshLinks(m, t)
 		for _, d := range m.Conf.Defs {
 			if d.IsG {
-				if got := m.linksKey(d.Pt, t.names, t.domains); got != fresh[d.Pt] {
+				if got := m.linksKey(d.Pt, t.namesFor(d.Pt), t.domains); got != fresh[d.Pt] {
 					c.Direct(id, "the incrementally maintained role graph of "+d.Pt+" answers differently from one rebuilt from GetGroupingPolicy", fmt.Sprintf("ops=%s incremental=%s rebuilt=%s", opsSx(ops), got, fresh[d.Pt]))
 				}
 			}
@@ -199,9 +207,9 @@ func init() {
 		c.Rule = "state-space enumeration: every reachable ordered list of grouping rules over a 4-rule universe (with a cycle) x an alphabet of ~30 calls (single/batch/Ex add, remove, update, batch update, filtered removal, ClearPolicy, LoadPolicy, Save+Load, DeleteUser, DeleteRole, calls on the other definition), for g and g2 of an RBAC model (plain manager) and g of a domain model (domain manager), auto-save on; thorough adds depth-2 continuations from every state. Distinct = (target, state, call); non-trivial = the state or the call involves at least one grouping rule. Additions: g2 links observed over the union of both name sets; identity / chain updates compared with the model outside the F08 guard (no fresh-enforcer predicate there); memory-only rules (auto-save off) followed by a reload from a store that lacks them."
 		targets := []c05Target{
 			{conf: machRBAC, pt: "g", rules: [][]string{{"alice", "admin"}, {"bob", "admin"}, {"admin", "root"}, {"root", "alice"}},
-				other: "g2", otherR: [][]string{{"data1", "grp"}}, names: []string{"alice", "bob", "admin", "root", "data1", "grp"}},
+				other: "g2", otherR: [][]string{{"data1", "grp"}}, names: []string{"alice", "bob", "admin", "root"}, onames: []string{"data1", "grp"}},
 			{conf: machRBAC, pt: "g2", rules: [][]string{{"data1", "grp"}, {"data2", "grp"}, {"grp", "all"}, {"grp", "data1"}},
-				other: "g", otherR: [][]string{{"alice", "admin"}}, names: []string{"data1", "data2", "grp", "all", "alice", "admin"}},
+				other: "g", otherR: [][]string{{"alice", "admin"}}, names: []string{"data1", "data2", "grp", "all"}, onames: []string{"alice", "admin"}},
 			{conf: machDomain, pt: "g", rules: [][]string{{"alice", "admin", "d1"}, {"alice", "admin", "d2"}, {"bob", "admin", "d1"}, {"admin", "root", "d1"}},
 				other: "p", otherR: [][]string{{"admin", "d1", "data1", "read"}}, names: []string{"alice", "bob", "admin", "root"}, domains: []string{"d1", "d2"}},
 		}
